@@ -122,6 +122,9 @@ Inductive zev : sstate -> expr -> rvalue -> sstate -> Prop :=
     for_empty fr to st = true -> zev s (EBinary n a b) RNil s2
 | ZForLoop s n a b var fr to st body s1 s2 acc s3 : lower n = "do" -> zev s a (RFor var fr to st) s1 -> zev s1 b (RCode body) s2 ->
     for_empty fr to st = false -> leaf_first body -> zfor var to st s2 fr true body acc s3 -> zev s (EBinary n a b) acc s3
+| ZWhileVal s n a cond s1 : lower n = "while" -> (forall k, a <> ENum k) -> zev s a (RCode cond) s1 -> zev s (EUnary n a) (RWhile cond) s1
+| ZWhileLoop s n a b cond body s1 s2 v s3 : lower n = "do" -> zev s a (RWhile cond) s1 -> zev s1 b (RCode body) s2 ->
+    leaf_first cond -> leaf_first body -> zwhile cond body s2 true v s3 -> zev s (EBinary n a b) v s3
 with zevs : sstate -> list expr -> list rvalue -> sstate -> Prop :=
 | ZNil s : zevs s [] [] s
 | ZCons s e v s1 l vs s2 : zev s e v s1 -> nonnil v -> zevs s1 l vs s2 -> zevs s (e :: l) (v :: vs) s2
@@ -162,15 +165,30 @@ with zfor : string -> Z -> Z -> sstate -> Z -> bool -> list stmt -> rvalue -> ss
     zfor var to st s x first body (res_of reg) (pop_scope s1)
 | ZForExit var to st s x (first:bool) body v s1 :
     zblock (enter s [(lower var, RNum x)]) (if first then RNil else RNone) body (BExit v) s1 ->
-    zfor var to st s x first body v (pop_scope s1).
+    zfor var to st s x first body v (pop_scope s1)
+(* the rounds of a while loop: the condition and the body run in one scope that is emptied before each of them; the loop
+   yields nil, or the value an exitWith in the condition or the body leaves it with *)
+with zwhile : list stmt -> list stmt -> sstate -> bool -> rvalue -> sstate -> Prop :=
+| ZWhileStop cond body s (first:bool) s1 :
+    zblock (enter s []) (if first then RNil else RNone) cond (BNorm (RBool false)) s1 -> zwhile cond body s first RNil (pop_scope s1)
+| ZWhileRound cond body s (first:bool) s1 reg s2 v s' :
+    zblock (enter s []) (if first then RNil else RNone) cond (BNorm (RBool true)) s1 ->
+    zblock (set_top_vars s1 []) RNone body (BNorm reg) s2 ->
+    zwhile cond body (pop_scope s2) false v s' -> zwhile cond body s first v s'
+| ZWhileExitCond cond body s (first:bool) v s1 :
+    zblock (enter s []) (if first then RNil else RNone) cond (BExit v) s1 -> zwhile cond body s first v (pop_scope s1)
+| ZWhileExitBody cond body s (first:bool) s1 v s2 :
+    zblock (enter s []) (if first then RNil else RNone) cond (BNorm (RBool true)) s1 ->
+    zblock (set_top_vars s1 []) RNone body (BExit v) s2 -> zwhile cond body s first v (pop_scope s2).
 
 Scheme zev_i := Induction for zev Sort Prop
   with zevs_i := Induction for zevs Sort Prop
   with zstmt_i := Induction for zstmt Sort Prop
   with zblock_i := Induction for zblock Sort Prop
   with ziter_i := Induction for ziter Sort Prop
-  with zfor_i := Induction for zfor Sort Prop.
-Combined Scheme z_ind from zev_i, zevs_i, zstmt_i, zblock_i, ziter_i, zfor_i.
+  with zfor_i := Induction for zfor Sort Prop
+  with zwhile_i := Induction for zwhile Sort Prop.
+Combined Scheme z_ind from zev_i, zevs_i, zstmt_i, zblock_i, ziter_i, zfor_i, zwhile_i.
 
 Lemma zblock_val s reg b out s' : zblock s reg b out s' -> val_of out <> RNone.
 Proof. induction 1; cbn [val_of]; try assumption; match goal with |- res_of ?r <> _ => destruct r; discriminate end. Qed.
@@ -197,9 +215,16 @@ Proof.
   match goal with H : zblock _ _ _ (BExit _) _ |- _ => exact (zblock_val _ _ _ _ _ H) end.
 Qed.
 
+Lemma zwhile_val cond body s first v s' : zwhile cond body s first v s' -> v <> RNone.
+Proof.
+  induction 1; try discriminate; try assumption;
+    match goal with H : zblock _ _ _ (BExit ?v) _ |- ?v <> _ => exact (zblock_val _ _ _ _ _ H) end.
+Qed.
+
 Lemma zev_not_none s e v s' : zev s e v s' -> v <> RNone.
 Proof.
   destruct 1; try discriminate;
+    try (match goal with H : zwhile _ _ _ _ _ _ |- _ => exact (zwhile_val _ _ _ _ _ _ H) end);
     try (match goal with H : nonnil _ |- _ => exact (proj2 H) end);
     try (match goal with H : zblock _ _ _ _ _ |- _ => exact (zblock_val _ _ _ _ _ H) end);
     try (match goal with H : ziter ?k _ _ _ _ _ _ _ |- _ => apply (ziter_val _ _ _ _ _ _ _ _ H); destruct k; discriminate end);
@@ -665,6 +690,131 @@ Lemma for_do_vm var fr to st code r c :
   else Ok (r, push_frame c (mk_frame (cur_ns c) code (Some (BFor var to st)) None [(lower var, VNum fr)]), VNil).
 Proof. reflexivity. Qed.
 
+(* ---------------------------------------------------------------- loops that exchange the frame's instructions (while) *)
+(* the loop frame after its behaviour has put other instructions in: position 0, the new behaviour, no variables *)
+Definition xframe (f:frame) (b':behavior) (code':list instr) : frame :=
+  set_vars (set_pos (set_code (set_exit f (Some b')) code') 0) [].
+
+Definition exchanges (r:rt) (c:context) (f:frame) (rest0:list frame) (b b':behavior) (code':list instr) (below:list value) : Prop :=
+  exists c2, enact b r (set_frames c (set_pos f (S (f_pos f)) :: rest0)) = Ok (BrExchange code', b', r, c2) /\
+    upd_top (upd_top c2 (fun f0 => set_exit f0 (Some b'))) (fun f0 => set_pos (set_code f0 code') 0) =
+    set_values (set_frames c (xframe f b' code' :: rest0)) below.
+
+Lemma xloop_step_real r c f rest0 b b' i0 code' below r3 c5 :
+  Good r c -> c_frames c = f :: rest0 -> f_pos f = length (f_code f) -> f_exit f = Some b -> f_die f = false ->
+  exchanges r c f rest0 b b' (i0 :: code') below ->
+  exec_instr i0 r (set_values (set_frames c (set_pos (xframe f b' (i0 :: code')) 1 :: rest0)) below) = Ok (r3, c5) ->
+  r_err (upd_cur r3 c5) = false ->
+  do_iter r = Ok (Executed (set_msgs (upd_cur r3 c5) [])).
+Proof.
+  intros G EF EP EX ED (c2 & HE & HC) EI NErr. pose proof G as (C & X & St & E & M & MR & SU).
+  unfold do_iter. rewrite X, C, SU, EF, St.
+  destruct frame_fuel_SS as [k Hk]. rewrite Hk.
+  cbn [frame_next]. rewrite EF.
+  assert (A1 : at_end f = false) by (unfold at_end; apply Nat.eqb_neq; lia).
+  assert (A2 : at_end (set_pos f (S (f_pos f))) = true) by (unfold at_end; cbn; apply Nat.eqb_eq; lia).
+  rewrite A1, A2. cbn [f_exit set_pos f_die]. rewrite EX, ED. cbn [andb negb].
+  rewrite HE. cbn [bindr]. rewrite HC.
+  cbn [c_frames set_values set_frames].
+  assert (B1 : at_end (xframe f b' (i0 :: code')) = false) by (unfold at_end; reflexivity).
+  assert (B2 : at_end (set_pos (xframe f b' (i0 :: code')) (S (f_pos (xframe f b' (i0 :: code'))))) = false) by (unfold at_end; reflexivity).
+  rewrite B1, B2. cbn [f_exit set_pos xframe set_vars set_exit set_code andb]. cbn [bindr]. rewrite E.
+  unfold current_instr. cbn [c_frames set_frames set_values f_code f_pos set_pos set_vars set_exit set_code xframe Nat.sub].
+  cbn [nth_error]. rewrite MR. cbn [Z.eqb].
+  match goal with |- context [exec_instr i0 r ?x] => replace x with (set_values (set_frames c (set_pos (xframe f b' (i0 :: code')) 1 :: rest0)) below) by (destruct c; reflexivity) end.
+  rewrite EI. cbn [bindr]. rewrite NErr. reflexivity.
+Qed.
+
+Lemma xloop_back r c f rest0 b b' i0 code' below :
+  Good r c -> c_frames c = f :: rest0 -> f_pos f = length (f_code f) -> f_exit f = Some b -> f_die f = false ->
+  ((exists v, i0 = IPush v) \/ (exists n, i0 = IGet n)) ->
+  exchanges r c f rest0 b b' (i0 :: code') below ->
+  do_iter r = do_iter (upd_cur r (set_values (set_frames c (xframe f b' (i0 :: code') :: rest0)) below)).
+Proof.
+  intros G EF EP EX ED LF GR. pose proof G as (C & X & St & E & M & MR & SU).
+  set (fV := xframe f b' (i0 :: code')). set (cV := set_values (set_frames c (fV :: rest0)) below).
+  assert (GV : Good (upd_cur r cV) cV) by (apply (good_upd r c cV G); exact SU).
+  set (cin := set_values (set_frames c (set_pos fV 1 :: rest0)) below).
+  assert (NV : nth_error (f_code fV) (f_pos fV) = Some i0) by reflexivity.
+  assert (EVr : forall r3 c5, exec_instr i0 (upd_cur r cV) cin = Ok (r3, c5) -> r_err (upd_cur r3 c5) = false ->
+            do_iter (upd_cur r cV) = Ok (Executed (set_msgs (upd_cur r3 c5) []))).
+  { intros r3 c5 H1 H2. apply (step_instr (upd_cur r cV) cV fV rest0 i0 r3 c5 GV eq_refl NV); [exact H1|exact H2]. }
+  assert (ERr : forall r3 c5, exec_instr i0 r cin = Ok (r3, c5) -> r_err (upd_cur r3 c5) = false ->
+            do_iter r = Ok (Executed (set_msgs (upd_cur r3 c5) []))).
+  { intros r3 c5 H1 H2. eapply xloop_step_real; eauto. }
+  destruct LF as [[v ->]|[n ->]].
+  - rewrite (ERr r (push_value cin v)); [|reflexivity|rewrite err_upd_cur; exact E].
+    rewrite (EVr (upd_cur r cV) (push_value cin v)); [|reflexivity|rewrite !err_upd_cur; exact E].
+    rewrite upd_cur_twice. reflexivity.
+  - cbn [exec_instr] in EVr, ERr. destruct (is_local n).
+    + destruct (get_variable cin n) as [v|].
+      * rewrite (ERr r (push_value cin v)); [|reflexivity|rewrite err_upd_cur; exact E].
+        rewrite (EVr (upd_cur r cV) (push_value cin v)); [|reflexivity|rewrite !err_upd_cur; exact E].
+        rewrite upd_cur_twice. reflexivity.
+      * rewrite (ERr _ _ eq_refl); [|rewrite err_logmsg_warn; exact E].
+        rewrite (EVr _ _ eq_refl); [|rewrite err_logmsg_warn, err_upd_cur; exact E].
+        rewrite logmsg_upd_cur, upd_cur_twice. reflexivity.
+    + cbn [c_frames cin set_values set_frames] in EVr, ERr. rewrite ns_get_upd_cur in EVr.
+      destruct (ns_get r (f_ns (set_pos fV 1)) n) as [v|].
+      * rewrite (ERr r (push_value cin v)); [|reflexivity|rewrite err_upd_cur; exact E].
+        rewrite (EVr (upd_cur r cV) (push_value cin v)); [|reflexivity|rewrite !err_upd_cur; exact E].
+        rewrite upd_cur_twice. reflexivity.
+      * rewrite (ERr _ _ eq_refl); [|rewrite err_logmsg_warn; exact E].
+        rewrite (EVr _ _ eq_refl); [|rewrite err_logmsg_warn, err_upd_cur; exact E].
+        rewrite logmsg_upd_cur, upd_cur_twice. reflexivity.
+Qed.
+
+(* ---------------------------------------------------------------- while: what its behaviour does *)
+(* the condition has come out true: the body's instructions are put in *)
+Lemma while_to_body r c f rest0 loops cc i0 code' t below :
+  c_frames c = f :: rest0 -> c_values c = VBool true :: t ++ below -> length below = f_base f ->
+  exchanges r c f rest0 (BWhile loops WCond cc (i0 :: code')) (BWhile loops WCode cc (i0 :: code')) (i0 :: code') below.
+Proof.
+  intros EF EV LB.
+  set (cin := set_frames c (set_pos f (S (f_pos f)) :: rest0)).
+  assert (P : pop_value cin = Some (VBool true, set_values cin (t ++ below))).
+  { apply (pop_value_top cin (set_pos f (S (f_pos f))) rest0); [reflexivity|exact EV|cbn; rewrite app_length; lia]. }
+  eexists. split.
+  - cbn [enact]. fold cin. rewrite P. reflexivity.
+  - unfold restart_with, clear_values, upd_top. cbn [c_frames set_values set_frames cin c_values f_base set_pos].
+    rewrite app_length, <- LB. replace (length t + length below - length below) with (length t) by lia.
+    rewrite skipn_app, skipn_all, Nat.sub_diag. cbn [skipn app]. destruct c, f; reflexivity.
+Qed.
+
+(* the body has run out: the condition's instructions are put back (no cap on the rounds) *)
+Lemma while_to_cond r c f rest0 loops i0 code' bc top below :
+  c_frames c = f :: rest0 -> c_values c = top ++ below -> length below = f_base f -> r_max_loop r = 0 ->
+  exchanges r c f rest0 (BWhile loops WCode (i0 :: code') bc)
+            (BWhile (if c_can_suspend c then loops else S loops) WCond (i0 :: code') bc) (i0 :: code') below.
+Proof.
+  intros EF EV LB ML.
+  set (cin := set_frames c (set_pos f (S (f_pos f)) :: rest0)).
+  eexists. split.
+  - cbn [enact]. fold cin. rewrite ML. cbn [Nat.ltb Nat.leb andb]. rewrite andb_false_r. unfold cin at 1. cbn [c_can_suspend set_frames]. reflexivity.
+  - unfold restart_with, clear_values, upd_top. cbn [c_frames set_values set_frames cin c_values f_base set_pos].
+    rewrite EV, app_length, <- LB. replace (length top + length below - length below) with (length top) by lia.
+    rewrite skipn_app, skipn_all, Nat.sub_diag. cbn [skipn app]. destruct c, f; reflexivity.
+Qed.
+
+(* the condition has come out false: the loop is over, what lay under the condition's value is what is left *)
+Lemma while_over r c f rest0 loops cc bc t below :
+  c_frames c = f :: rest0 -> c_values c = VBool false :: t ++ below -> length below = f_base f ->
+  loop_over r c f rest0 (BWhile loops WCond cc bc) t below.
+Proof.
+  intros EF EV LB.
+  set (cin := set_frames c (set_pos f (S (f_pos f)) :: rest0)).
+  assert (P : pop_value cin = Some (VBool false, set_values cin (t ++ below))).
+  { apply (pop_value_top cin (set_pos f (S (f_pos f))) rest0); [reflexivity|exact EV|cbn; rewrite app_length; lia]. }
+  eexists. cbn [enact]. fold cin. rewrite P. reflexivity.
+Qed.
+
+Lemma while_do_vm i0 code' bc r c :
+  op_binary "do" (VWhile (i0 :: code')) (VCode bc) r c =
+  Ok (r, push_frame c (mk_frame (cur_ns c) (i0 :: code') (Some (BWhile 0 WCond (i0 :: code') bc)) None []), VNil).
+Proof. reflexivity. Qed.
+Lemma while_val_vm code r c : op_unary "while" (VCode code) r c = Ok (r, c, VWhile code).
+Proof. reflexivity. Qed.
+
 Definition ForRuns (var:string) (to st:Z) (s:sstate) (x:Z) (first:bool) (body:list stmt) (acc':rvalue) (s':sstate) : Prop :=
   forall r c f fc frest below,
     AtM (enter s [(lower var, RNum x)]) (if first then RNil else RNone) r c f (fc :: frest) below -> Fresh c below ->
@@ -687,6 +837,17 @@ Definition IterRuns (k:lkind) (s:sstate) (arr:list rvalue) (i:nat) (body:list st
         kept fc fc' /\ Forall2 kept frest rest'
   end.
 
+(* the state at the start of a round of while: the loop frame holds the condition's instructions at position 0, no variables,
+   its behaviour waits for the condition's value (after however many rounds) *)
+Definition WhileRuns (cond body:list stmt) (s:sstate) (first:bool) (v:rvalue) (s':sstate) : Prop :=
+  forall r c f fc frest below loops,
+    AtM (enter s []) (if first then RNil else RNone) r c f (fc :: frest) below -> Fresh c below ->
+    f_code f = compile_block cond -> f_pos f = 0 ->
+    f_exit f = Some (BWhile loops WCond (compile_block cond) (compile_block body)) -> f_die f = false ->
+    leaf_first cond -> leaf_first body -> f_ns f = f_ns fc -> f_base fc <= length below ->
+    exists r' c' fc' rest', Steps r r' /\ r' <> r /\ Mach s' r' c' fc' rest' /\ c_values c' = cv v :: below /\
+      kept fc fc' /\ Forall2 kept frest rest'.
+
 Theorem vm_runs_z :
   (forall s e v s', zev s e v s' -> forall r c f rest pre post, Mach s r c f rest ->
       f_code f = pre ++ compile_expr e ++ post -> f_pos f = length pre -> Post s' (cv v) (length (compile_expr e)) r c f rest) /\
@@ -697,7 +858,8 @@ Theorem vm_runs_z :
   (forall s reg st reg1 s1, zstmt s reg st reg1 s1 -> BlockRuns s reg (compile_stmt st) reg1 s1) /\
   (forall s reg b out s', zblock s reg b out s' -> BodyEnds s reg (compile_block b) out s') /\
   (forall k s arr i body acc acc' s', ziter k s arr i body acc acc' s' -> IterRuns k s arr i body acc acc' s') /\
-  (forall var to st s x first body acc s', zfor var to st s x first body acc s' -> ForRuns var to st s x first body acc s').
+  (forall var to st s x first body acc s', zfor var to st s x first body acc s' -> ForRuns var to st s x first body acc s') /\
+  (forall cond body s first v s', zwhile cond body s first v s' -> WhileRuns cond body s first v s').
 Proof.
   apply z_ind.
   - (* pure *) intros s e v HE r c f rest pre post (G & EF & M & B & D) EC EP.
@@ -1138,6 +1300,53 @@ Proof.
     split; [exact M4|]. split; [exact EV4|].
     split; [eapply moved_trans; [exact MV1|eapply moved_trans; [exact MV2|eapply moved_trans; [apply (moved_set_pos f2 (S (f_pos f2)))|apply kept_moved; exact K4]]]|].
     split; [rewrite (kept_pos _ _ K4); cbn; rewrite P2, P1; lia|eapply kept_all_trans; [exact K1|eapply kept_all_trans; eassumption]].
+  - (* while {..} *) intros s n a cond s1 HN NL HA IHa r c f rest pre post MA EC EP.
+    rewrite (compile_unary_nonlit n a NL) in *. rewrite app_length. cbn [length]. rewrite <- app_assoc in EC.
+    post_intro (IHa r c f rest pre ([IUnary (lower n)] ++ post) MA EC EP) r1 c1 f1 rest1 S1 M1 EV1 MV1 P1 K1.
+    destruct (after_operands_code f f1 pre _ _ MV1 EC EP P1) as [EC1 EP1].
+    destruct M1 as (G1 & EF1 & MM1 & B1 & D1). destruct MA as (_ & _ & _ & B & _).
+    set (c0 := set_values (set_frames c1 (set_pos f1 (S (f_pos f1)) :: rest1)) (c_values c)).
+    destruct (unary_run r1 c1 f1 rest1 _ _ (lower n) (cv (RCode cond)) (c_values c) c0 (cv (RWhile cond)) G1 EF1 EC1 EP1 EV1) as [S2 G2].
+    { rewrite (moved_base _ _ MV1); exact B. } { discriminate. } { rewrite lower_idem, HN. reflexivity. }
+    { destruct G1 as (_ & _ & _ & _ & _ & _ & SU); exact SU. }
+    eexists _, _, _, rest1. split; [eapply steps_trans; [exact S1|exact S2]|]. split.
+    + split; [exact G2|]. split; [reflexivity|]. split; [apply match_upd, match_set_pos; exact MM1|].
+      split; [cbn; rewrite (moved_base _ _ MV1); lia|rewrite quirks_upd_cur; exact D1].
+    + split; [reflexivity|]. split; [eapply moved_trans; [exact MV1|apply moved_set_pos]|]. split; [cbn; rewrite P1; lia|exact K1].
+  - (* while {..} do {..} *) intros s n a b cond body s1 s2 v s3 HN HA IHa HB IHb LFc LFb HW IHw r c f rest pre post MA EC EP.
+    rewrite compile_binary in *. rewrite !app_length. cbn [length]. rewrite <- !app_assoc in EC.
+    post_intro (IHa r c f rest pre (compile_expr b ++ [IBinary (lower n)] ++ post) MA EC EP) r1 c1 f1 rest1 S1 M1 EV1 MV1 P1 K1.
+    destruct (after_operands_code f f1 pre _ _ MV1 EC EP P1) as [EC1 EP1].
+    post_intro (IHb r1 c1 f1 rest1 (pre ++ compile_expr a) ([IBinary (lower n)] ++ post) M1 EC1 EP1) r2 c2 f2 rest2 S2 M2 EV2 MV2 P2 K2.
+    destruct (after_operands_code f1 f2 _ _ _ MV2 EC1 EP1 P2) as [EC2 EP2].
+    destruct M2 as (G2 & EF2 & MM2 & B2 & D2). destruct MA as (_ & _ & _ & B & _).
+    rewrite EV1 in EV2.
+    set (c0 := set_values (set_frames c2 (set_pos f2 (S (f_pos f2)) :: rest2)) (c_values c)).
+    pose proof LFc as (ic & codec & LCc & _).
+    set (lf := mk_frame (cur_ns c0) (compile_block cond) (Some (BWhile 0 WCond (compile_block cond) (compile_block body))) None []).
+    destruct (binary_run r2 c2 f2 rest2 _ _ (lower n) (cv (RWhile cond)) (cv (RCode body)) (c_values c)
+                (push_frame c0 lf) VNil G2 EF2 EC2 EP2 EV2) as [S3 G3].
+    { rewrite (moved_base _ _ MV2), (moved_base _ _ MV1); exact B. } { discriminate. } { discriminate. }
+    { rewrite lower_idem, HN. cbn [cv]. unfold lf. rewrite LCc. apply while_do_vm. }
+    { destruct G2 as (_ & _ & _ & _ & _ & _ & SU); exact SU. }
+    set (nf := set_base lf (length (c_values c))).
+    destruct (IHw (upd_cur r2 (push_value (push_frame c0 lf) VNil)) (push_value (push_frame c0 lf) VNil) nf (set_pos f2 (S (f_pos f2))) rest2 (c_values c) 0)
+      as (r4 & c4 & fc4 & rest4 & S4 & _ & M4 & EV4 & K4 & KR4).
+    { split.
+      - split; [exact G3|]. split; [reflexivity|]. split.
+        + apply match_upd. destruct MM2 as [F N]. split; [|exact N]. cbn. inversion F as [|sc f0 scs fs FM F' E1 E2]; subst.
+          constructor; [|constructor; [exact FM|exact F']].
+          split; [intros k; reflexivity|split; [|reflexivity]].
+          cbn. destruct FM as (_ & NS & _). unfold cur_ns_of. rewrite <- E1. exact NS.
+        + split; [cbn; lia|rewrite quirks_upd_cur; exact D2].
+      - split; [reflexivity|]. exists [VNil]. split; [reflexivity|]. split; [reflexivity|]. split; [discriminate|left; reflexivity]. }
+    { right. reflexivity. }
+    { reflexivity. } { reflexivity. } { reflexivity. } { reflexivity. } { exact LFc. } { exact LFb. } { reflexivity. }
+    { cbn. rewrite (moved_base _ _ MV2), (moved_base _ _ MV1); exact B. }
+    eexists _, _, fc4, rest4. split; [eapply steps_trans; [exact S1|eapply steps_trans; [exact S2|eapply steps_trans; [exact S3|exact S4]]]|].
+    split; [exact M4|]. split; [exact EV4|].
+    split; [eapply moved_trans; [exact MV1|eapply moved_trans; [exact MV2|eapply moved_trans; [apply (moved_set_pos f2 (S (f_pos f2)))|apply kept_moved; exact K4]]]|].
+    split; [rewrite (kept_pos _ _ K4); cbn; rewrite P2, P1; lia|eapply kept_all_trans; [exact K1|eapply kept_all_trans; eassumption]].
   - (* no elements *) intros s r c f rest pre post MA EC EP. split; [|reflexivity].
     exists r, c, f, rest. split; [apply StepsRefl|]. split; [exact MA|]. split; [reflexivity|]. split; [apply moved_refl|].
     split; [cbn; lia|apply kept_all_refl].
@@ -1412,6 +1621,137 @@ Proof.
     { destruct A as ((G0 & EF0 & _) & _). destruct G0 as (C0 & _). destruct M1 as ((C1 & _) & EF1 & _). eapply neq_by_frames; [exact C0|exact C1|].
       rewrite EF1, EF0. cbn. rewrite (forall2_length _ _ _ KR1). lia. }
     split; [exact M1|]. split; [exact EV1|]. split; assumption.
+  - (* while: the condition comes out false *) intros cond body s first s1 HC IHc.
+    intros r c f fc frest below loops A FR EC EP EX ED LFc LFb ENS HBf.
+    specialize (IHc r c f fc frest below [] A FR EC EP HBf). cbn in IHc.
+    destruct IHc as (r1 & c1 & f1 & rest1 & S1 & A1 & MV1 & P1 & K1).
+    inversion K1 as [|fa fc1 ra frest1 Ka Kb Ea Eb]; subst.
+    destruct A as ((G0 & EF0 & _) & _).
+    destruct A1 as ((G1 & EF1 & (F1 & N1) & B1 & D1) & LB1 & top1 & EV1 & RR1).
+    assert (XE : f_exit f1 = Some (BWhile loops WCond (compile_block cond) (compile_block body))) by (rewrite (moved_exit _ _ MV1); exact EX).
+    assert (XD : f_die f1 = false) by (rewrite (moved_die _ _ MV1); exact ED).
+    assert (XP : f_pos f1 = length (f_code f1)) by (rewrite P1, (moved_code _ _ MV1); reflexivity).
+    inversion F1 as [|sc1 f0 scs1 fs1 FM1 F1' E1 E2]; subst.
+    destruct top1 as [|x0 t]; [discriminate RR1|]. destruct RR1 as (-> & _ & UT). cbn [cv app] in EV1.
+    pose proof (while_over r1 c1 f1 (fc1 :: frest1) loops (compile_block cond) (compile_block body) t below EF1 EV1 LB1) as LO.
+    destruct (complete_loop r1 c1 f1 fc1 frest1 _ t below G1 D1 EF1 XP XE XD LO LB1) as [S2 G2].
+    eexists _, _, fc1, frest1. split; [eapply steps_trans; eassumption|]. split.
+    { destruct G0 as (C0 & _). destruct G2 as (C2 & _). eapply neq_by_frames; [exact C0|exact C2|].
+      cbn. rewrite EF0. cbn. rewrite (forall2_length _ _ _ Kb). lia. }
+    split.
+    { split; [exact G2|]. split; [reflexivity|]. split.
+      - apply match_upd. split; [|exact N1]. cbn. rewrite <- E1. cbn. exact F1'.
+      - split; [cbn; rewrite (kept_base _ _ Ka); lia|rewrite quirks_upd_cur; exact D1]. }
+    split; [cbn; destruct UT as [-> | ->]; reflexivity|split; assumption].
+  - (* while: a round, then the rest *) intros cond body s first s1 reg s2 v s' HC IHc HB IHb HW IHw.
+    intros r c f fc frest below loops A FR EC EP EX ED LFc LFb ENS HBf.
+    specialize (IHc r c f fc frest below [] A FR EC EP HBf). cbn in IHc.
+    destruct IHc as (r1 & c1 & f1 & rest1 & S1 & A1 & MV1 & P1 & K1).
+    inversion K1 as [|fa fc1 ra frest1 Ka Kb Ea Eb]; subst.
+    destruct A as ((G0 & EF0 & _) & _).
+    destruct A1 as ((G1 & EF1 & (F1 & N1) & B1 & D1) & LB1 & top1 & EV1 & RR1).
+    pose proof LFb as (ib & codeb & LCb & LLb). pose proof LFc as (ic & codec & LCc & LLc).
+    assert (XE : f_exit f1 = Some (BWhile loops WCond (ic :: codec) (ib :: codeb))) by (rewrite (moved_exit _ _ MV1), EX, LCc, LCb; reflexivity).
+    assert (XD : f_die f1 = false) by (rewrite (moved_die _ _ MV1); exact ED).
+    assert (XP : f_pos f1 = length (f_code f1)) by (rewrite P1, (moved_code _ _ MV1); reflexivity).
+    inversion F1 as [|sc1 f0 scs1 fs1 FM1 F1' E1 E2]; subst.
+    destruct top1 as [|x0 t]; [discriminate RR1|]. destruct RR1 as (-> & _ & UT). cbn [cv app] in EV1.
+    pose proof (while_to_body r1 c1 f1 (fc1 :: frest1) loops (ic :: codec) ib codeb t below EF1 EV1 LB1) as XB.
+    pose proof (xloop_back r1 c1 f1 (fc1 :: frest1) _ _ ib codeb below G1 EF1 XP XE XD LLb XB) as LBk1.
+    set (fB := xframe f1 (BWhile loops WCode (ic :: codec) (ib :: codeb)) (ib :: codeb)) in *.
+    set (cB := set_values (set_frames c1 (fB :: fc1 :: frest1)) below) in *.
+    assert (GB : Good (upd_cur r1 cB) cB) by (apply (good_upd r1 c1 cB G1); destruct G1 as (_ & _ & _ & _ & _ & _ & SU); exact SU).
+    specialize (IHb (upd_cur r1 cB) cB fB fc1 frest1 below []). cbn [app length] in IHb.
+    destruct IHb as (r2 & c2 & f2 & rest2 & S2 & A2 & MV2 & P2 & K2).
+    { split.
+      - split; [exact GB|]. split; [reflexivity|]. split.
+        + apply match_upd. unfold set_top_vars. rewrite <- E1. split; [|exact N1]. cbn. constructor; [|exact F1'].
+          destruct FM1 as (_ & NS1 & BB1). split; [intros k; reflexivity|split; [cbn; exact NS1|cbn; exact BB1]].
+        + split; [cbn; rewrite LB1; lia|rewrite quirks_upd_cur; exact D1].
+      - split; [cbn; exact LB1|]. exists []. split; [reflexivity|reflexivity]. }
+    { left. reflexivity. }
+    { cbn. rewrite LCb. reflexivity. } { reflexivity. } { rewrite (kept_base _ _ Ka). exact HBf. }
+    inversion K2 as [|fb fc2 rb frest2 Kc Kd Ec Ed]; subst.
+    destruct A2 as ((G2 & EF2 & (F2 & N2) & B2 & D2) & LB2 & top2 & EV2 & RR2).
+    set (loops' := if c_can_suspend c2 then loops else S loops).
+    assert (XE2 : f_exit f2 = Some (BWhile loops WCode (ic :: codec) (ib :: codeb))) by (rewrite (moved_exit _ _ MV2); reflexivity).
+    assert (XD2 : f_die f2 = false) by (rewrite (moved_die _ _ MV2); cbn; exact XD).
+    assert (XP2 : f_pos f2 = length (f_code f2)) by (rewrite P2, (moved_code _ _ MV2); reflexivity).
+    inversion F2 as [|sc2 f00 scs2 fs2 FM2 F2' E3 E4]; subst.
+    pose proof (while_to_cond r2 c2 f2 (fc2 :: frest2) loops ic codec (ib :: codeb) top2 below EF2 EV2 LB2 (quirks_loop _ D2)) as XC.
+    pose proof (xloop_back r2 c2 f2 (fc2 :: frest2) _ _ ic codec below G2 EF2 XP2 XE2 XD2 LLc XC) as LBk2.
+    fold loops' in LBk2.
+    set (fC := xframe f2 (BWhile loops' WCond (ic :: codec) (ib :: codeb)) (ic :: codec)) in *.
+    set (cC := set_values (set_frames c2 (fC :: fc2 :: frest2)) below) in *.
+    destruct (IHw (upd_cur r2 cC) cC fC fc2 frest2 below loops') as (r4 & c4 & fc4 & rest4 & S4 & N4 & M4 & EV4 & K4 & KR4).
+    { split.
+      - split; [apply (good_upd r2 c2 cC G2); destruct G2 as (_ & _ & _ & _ & _ & _ & SU); exact SU|]. split; [reflexivity|]. split.
+        + apply match_upd. split; [|exact N2]. cbn. rewrite <- E3. cbn. constructor; [|exact F2'].
+          split; [intros k; reflexivity|split; [|cbn; exact (proj2 (proj2 FM2))]].
+          cbn. rewrite (moved_ns _ _ MV2). cbn. rewrite (moved_ns _ _ MV1), ENS, <- (kept_ns _ _ Ka), <- (kept_ns _ _ Kc).
+          inversion F2' as [|sc3 f000 scs3 fs3 FM3 F2'' E5 E6]. destruct FM3 as (_ & NS3 & _).
+          unfold cur_ns_of, pop_scope. cbn. rewrite <- E3. cbn. rewrite <- E5. exact NS3.
+        + split; [cbn; rewrite LB2; lia|rewrite quirks_upd_cur; exact D2].
+      - split; [cbn; exact LB2|]. exists []. split; [reflexivity|reflexivity]. }
+    { left. reflexivity. }
+    { cbn. rewrite LCc. reflexivity. } { reflexivity. } { cbn. rewrite LCc, LCb. reflexivity. } { cbn. exact XD2. }
+    { exact LFc. } { exact LFb. }
+    { cbn. rewrite (moved_ns _ _ MV2). cbn. rewrite (moved_ns _ _ MV1), ENS, (kept_ns _ _ Kc), (kept_ns _ _ Ka). reflexivity. }
+    { rewrite (kept_base _ _ Kc), (kept_base _ _ Ka). exact HBf. }
+    assert (S24 : Steps r2 r4) by (eapply virtual_start; [exact LBk2|apply cfg_upd_cur|exact S4|exact N4]).
+    assert (NB : r4 <> upd_cur r1 cB).
+    { destruct GB as (CB & _). destruct M4 as ((C4 & _) & EF4 & _). eapply neq_by_frames; [exact CB|exact C4|].
+      rewrite EF4. cbn. rewrite (forall2_length _ _ _ KR4), (forall2_length _ _ _ Kd). lia. }
+    exists r4, c4, fc4, rest4. split; [eapply steps_trans; [exact S1|eapply virtual_start; [exact LBk1|apply cfg_upd_cur|eapply steps_trans; [exact S2|exact S24]|exact NB]]|].
+    split.
+    { destruct G0 as (C0 & _). destruct M4 as ((C4 & _) & EF4 & _). eapply neq_by_frames; [exact C0|exact C4|].
+      rewrite EF4, EF0. cbn. rewrite (forall2_length _ _ _ KR4), (forall2_length _ _ _ Kd), (forall2_length _ _ _ Kb). lia. }
+    split; [exact M4|]. split; [exact EV4|].
+    split; [eapply kept_trans; [exact Ka|eapply kept_trans; eassumption]|eapply kept_all_trans; [exact Kb|eapply kept_all_trans; eassumption]].
+  - (* while: the condition is left by exitWith *) intros cond body s first v s1 HC IHc.
+    intros r c f fc frest below loops A FR EC EP EX ED LFc LFb ENS HBf.
+    specialize (IHc r c f fc frest below [] A FR EC EP HBf). cbn in IHc.
+    destruct IHc as (r1 & c1 & fc1 & rest1 & S1 & M1 & EV1 & K1 & KR1).
+    exists r1, c1, fc1, rest1. split; [exact S1|]. split.
+    { destruct A as ((G0 & EF0 & _) & _). destruct G0 as (C0 & _). destruct M1 as ((C1 & _) & EF1 & _). eapply neq_by_frames; [exact C0|exact C1|].
+      rewrite EF1, EF0. cbn. rewrite (forall2_length _ _ _ KR1). lia. }
+    split; [exact M1|]. split; [exact EV1|]. split; assumption.
+  - (* while: the body is left by exitWith *) intros cond body s first s1 v s2 HC IHc HB IHb.
+    intros r c f fc frest below loops A FR EC EP EX ED LFc LFb ENS HBf.
+    specialize (IHc r c f fc frest below [] A FR EC EP HBf). cbn in IHc.
+    destruct IHc as (r1 & c1 & f1 & rest1 & S1 & A1 & MV1 & P1 & K1).
+    inversion K1 as [|fa fc1 ra frest1 Ka Kb Ea Eb]; subst.
+    destruct A as ((G0 & EF0 & _) & _).
+    destruct A1 as ((G1 & EF1 & (F1 & N1) & B1 & D1) & LB1 & top1 & EV1 & RR1).
+    pose proof LFb as (ib & codeb & LCb & LLb). pose proof LFc as (ic & codec & LCc & LLc).
+    assert (XE : f_exit f1 = Some (BWhile loops WCond (ic :: codec) (ib :: codeb))) by (rewrite (moved_exit _ _ MV1), EX, LCc, LCb; reflexivity).
+    assert (XD : f_die f1 = false) by (rewrite (moved_die _ _ MV1); exact ED).
+    assert (XP : f_pos f1 = length (f_code f1)) by (rewrite P1, (moved_code _ _ MV1); reflexivity).
+    inversion F1 as [|sc1 f0 scs1 fs1 FM1 F1' E1 E2]; subst.
+    destruct top1 as [|x0 t]; [discriminate RR1|]. destruct RR1 as (-> & _ & UT). cbn [cv app] in EV1.
+    pose proof (while_to_body r1 c1 f1 (fc1 :: frest1) loops (ic :: codec) ib codeb t below EF1 EV1 LB1) as XB.
+    pose proof (xloop_back r1 c1 f1 (fc1 :: frest1) _ _ ib codeb below G1 EF1 XP XE XD LLb XB) as LBk1.
+    set (fB := xframe f1 (BWhile loops WCode (ic :: codec) (ib :: codeb)) (ib :: codeb)) in *.
+    set (cB := set_values (set_frames c1 (fB :: fc1 :: frest1)) below) in *.
+    assert (GB : Good (upd_cur r1 cB) cB) by (apply (good_upd r1 c1 cB G1); destruct G1 as (_ & _ & _ & _ & _ & _ & SU); exact SU).
+    specialize (IHb (upd_cur r1 cB) cB fB fc1 frest1 below []). cbn [app length] in IHb.
+    destruct IHb as (r2 & c2 & fc2 & rest2 & S2 & M2 & EV2 & K2 & KR2).
+    { split.
+      - split; [exact GB|]. split; [reflexivity|]. split.
+        + apply match_upd. unfold set_top_vars. rewrite <- E1. split; [|exact N1]. cbn. constructor; [|exact F1'].
+          destruct FM1 as (_ & NS1 & BB1). split; [intros k; reflexivity|split; [cbn; exact NS1|cbn; exact BB1]].
+        + split; [cbn; rewrite LB1; lia|rewrite quirks_upd_cur; exact D1].
+      - split; [cbn; exact LB1|]. exists []. split; [reflexivity|reflexivity]. }
+    { left. reflexivity. }
+    { cbn. rewrite LCb. reflexivity. } { reflexivity. } { rewrite (kept_base _ _ Ka). exact HBf. }
+    assert (NB : r2 <> upd_cur r1 cB).
+    { destruct GB as (CB & _). destruct M2 as ((C2 & _) & EF2 & _). eapply neq_by_frames; [exact CB|exact C2|].
+      rewrite EF2. cbn. rewrite (forall2_length _ _ _ KR2). lia. }
+    exists r2, c2, fc2, rest2. split; [eapply steps_trans; [exact S1|eapply virtual_start; [exact LBk1|apply cfg_upd_cur|exact S2|exact NB]]|].
+    split.
+    { destruct G0 as (C0 & _). destruct M2 as ((C2 & _) & EF2 & _). eapply neq_by_frames; [exact C0|exact C2|].
+      rewrite EF2, EF0. cbn. rewrite (forall2_length _ _ _ KR2), (forall2_length _ _ _ Kb). lia. }
+    split; [exact M2|]. split; [exact EV2|]. split; [eapply kept_trans; eassumption|eapply kept_all_trans; eassumption].
 Qed.
 
 (* ---------------------------------------------------------------- the reference semantics *)
@@ -1502,6 +1842,36 @@ Proof.
   destruct (String.eqb m "step") eqn:E3; [apply String.eqb_eq in E3; subst m; inversion H; subst; reflexivity|discriminate H].
 Qed.
 
+(* the while loop of eval_binary, named *)
+Definition while_loop_f (f:nat) (cond body:list stmt) :=
+  fix loop (k:nat) (s:sstate) (n:nat) : outcome * sstate :=
+    match k with O => (OFuel, s) | S k =>
+    let '(o1, s1) := eval_block f (push_scope s (plain_scope_f s [])) cond (match n with O => RNil | _ => RNone end) in
+    let leave := fun (o:outcome) (s1:sstate) =>
+      match o with
+      | OExit v => (ONormal v, pop_scope s1)
+      | OBreak name v => match st_scopes s1 with
+                         | sc' :: _ => if String.eqb (sc_name sc') name then (ONormal v, pop_scope s1) else (OBreak name v, pop_scope s1)
+                         | [] => (OBreak name v, pop_scope s1) end
+      | other => (other, pop_scope s1) end in
+    match o1 with
+    | ONormal (RBool true) =>
+        let '(ob, s2) := eval_block f (set_top_vars s1 []) body RNone in
+        match ob with
+        | ONormal v => loop k (pop_scope s2) (S n)
+        | other => leave other s2 end
+    | ONormal (RBool false) => (ONormal RNil, pop_scope s1)
+    | ONormal RNil => (ONormal RNil, pop_scope s1)
+    | ONormal _ => (OError, pop_scope s1)
+    | other => leave other s1 end end.
+Lemma eval_binary_while f F s st cond body :
+  eval_binary (S f) s "do" (RWhile (st :: cond)) (RCode body) (in_scope_f F) plain_scope_f = while_loop_f f (st :: cond) body f s O.
+Proof. reflexivity. Qed.
+Lemma eval_unary_while f F s cond : eval_unary (S f) s "while" (RCode cond) (in_scope_f F) plain_scope_f = (ONormal (RWhile cond), s).
+Proof. reflexivity. Qed.
+Lemma leaf_first_cons b : leaf_first b -> exists st rest, b = st :: rest.
+Proof. intros (i & code & E & _). destruct b as [|st rest]; [discriminate E|eauto]. Qed.
+
 Theorem ref_runs_z :
   (forall s e v s', zev s e v s' -> exists f0, forall f, f0 <= f -> eval f s e = (ONormal v, s')) /\
   (forall s l vs s', zevs s l vs s' -> exists f0, forall f, f0 <= f -> forall acc, go_arr f s l acc = (ONormal (RArr (rev acc ++ vs)), s')) /\
@@ -1511,7 +1881,9 @@ Theorem ref_runs_z :
   (forall k s arr i body acc acc' s', ziter k s arr i body acc acc' s' -> exists f0, forall f, f0 <= f -> forall kk, length arr < kk ->
       iterate_f f kk s arr i body (kwith k) acc (kstep k) = (ONormal acc', s')) /\
   (forall var to st s x first body acc s', zfor var to st s x first body acc s' -> exists f0 k0, forall f, f0 <= f -> forall k, k0 <= k ->
-      for_loop_f f var to st body k s x first = (ONormal acc, s')).
+      for_loop_f f var to st body k s x first = (ONormal acc, s')) /\
+  (forall cond body s first v s', zwhile cond body s first v s' -> exists f0 k0, forall f, f0 <= f -> forall k, k0 <= k -> forall n, first = Nat.eqb n 0 ->
+      while_loop_f f cond body k s n = (ONormal v, s')).
 Proof.
   apply z_ind.
   - (* pure *) intros s e v HE. exists (esize e). intros f L. exact (proj2 (proj1 (pure_ref _ _) e v HE) s f (renv_ok_of s) L).
@@ -1608,6 +1980,14 @@ Proof.
     destruct f as [|f]; [lia|].
     transitivity (eval_binary (S f) s2 "do" (RFor var fr to st) (RCode body) (in_scope_f (S f)) plain_scope_f); [reflexivity|].
     rewrite eval_binary_for, HE. apply IHi; lia.
+  - (* while {..} *) intros s n a cond s1 HN NL HA [fa IHa]. exists (S (S fa)). intros [|[|f]] L; try lia.
+    rewrite (eval_S_unary _ _ _ _ NL), (IHa (S f)) by lia. rewrite HN. apply eval_unary_while.
+  - (* while {..} do {..} *) intros s n a b cond body s1 s2 v s3 HN HA [fa IHa] HB [fb IHb] LFc LFb HW (fw & kw & IHw). exists (S (S (fa + fb + fw + kw))).
+    intros [|f] L; [lia|]. rewrite eval_S_binary, (IHa f), (IHb f) by lia. rewrite HN.
+    destruct f as [|f]; [lia|].
+    destruct (leaf_first_cons _ LFc) as (st & crest & ->).
+    transitivity (eval_binary (S f) s2 "do" (RWhile (st :: crest)) (RCode body) (in_scope_f (S f)) plain_scope_f); [reflexivity|].
+    rewrite eval_binary_while. apply IHw; [lia|lia|reflexivity].
   - (* no elements *) intros s. exists 0. intros f _ acc. cbn. rewrite app_nil_r. reflexivity.
   - (* elements *) intros s e v s1 l vs s2 HE [fe IHe] NN HL [fl IHl]. exists (fe + fl). intros f L acc.
     cbn [go_arr]. rewrite (IHe f) by lia. fold (go_arr f).
@@ -1659,4 +2039,24 @@ Proof.
     intros f L [|k] LK; [lia|]. cbn [for_loop_f]. fold (for_loop_f f var to st body).
     change (push_scope s (plain_scope_f s [(lower var, RNum x)])) with (enter s [(lower var, RNum x)]).
     rewrite (IHb f) by lia. reflexivity.
+  - (* while: the condition comes out false *) intros cond body s first s1 HC [fc IHc]. exists fc, 1.
+    intros f L [|k] LK n Hn; [lia|]. cbn [while_loop_f]. fold (while_loop_f f cond body).
+    change (push_scope s (plain_scope_f s [])) with (enter s []).
+    replace (match n with O => RNil | _ => RNone end) with (if first then RNil else RNone) by (subst first; destruct n; reflexivity).
+    rewrite (IHc f) by lia. reflexivity.
+  - (* while: a round, then the rest *) intros cond body s first s1 reg s2 v s' HC [fc IHc] HB [fb IHb] HW (fw & kw & IHw). exists (fc + fb + fw), (S kw).
+    intros f L [|k] LK n Hn; [lia|]. cbn [while_loop_f]. fold (while_loop_f f cond body).
+    change (push_scope s (plain_scope_f s [])) with (enter s []).
+    replace (match n with O => RNil | _ => RNone end) with (if first then RNil else RNone) by (subst first; destruct n; reflexivity).
+    rewrite (IHc f) by lia. cbn [oc]. rewrite (IHb f) by lia. cbn [oc]. apply IHw; [lia|lia|reflexivity].
+  - (* while: the condition is left by exitWith *) intros cond body s first v s1 HC [fc IHc]. exists fc, 1.
+    intros f L [|k] LK n Hn; [lia|]. cbn [while_loop_f]. fold (while_loop_f f cond body).
+    change (push_scope s (plain_scope_f s [])) with (enter s []).
+    replace (match n with O => RNil | _ => RNone end) with (if first then RNil else RNone) by (subst first; destruct n; reflexivity).
+    rewrite (IHc f) by lia. reflexivity.
+  - (* while: the body is left by exitWith *) intros cond body s first s1 v s2 HC [fc IHc] HB [fb IHb]. exists (fc + fb), 1.
+    intros f L [|k] LK n Hn; [lia|]. cbn [while_loop_f]. fold (while_loop_f f cond body).
+    change (push_scope s (plain_scope_f s [])) with (enter s []).
+    replace (match n with O => RNil | _ => RNone end) with (if first then RNil else RNone) by (subst first; destruct n; reflexivity).
+    rewrite (IHc f) by lia. cbn [oc]. rewrite (IHb f) by lia. reflexivity.
 Qed.
